@@ -457,7 +457,20 @@ fn lit_case(rng: &mut Rng) -> String {
     let needle: &[u8] = if rng.chance(1, 4) { b"xy" } else { b"x" };
     let (pn, pd) = *rng.pick(&[(1usize, 8usize), (1, 6), (1, 5), (1, 4), (1, 2), (3, 4)]);
     let nmax = if rng.chance(1, 3) { 20 } else { 12 };
-    let input = gen_lit_input(rng, cfg.lt, needle, nmax, pn, pd);
+    let mut input = gen_lit_input(rng, cfg.lt, needle, nmax, pn, pd);
+    if rng.chance(1, 250) {
+        // a line longer than the searcher's 64 KiB buffer (selected or not), somewhere among the others
+        let mut long: Vec<u8> = std::iter::repeat(b'y').take(rng.range(65_530, 70_000)).collect();
+        if rng.chance(1, 2) {
+            let at = rng.range(0, long.len());
+            long.splice(at..at, needle.iter().cloned());
+        }
+        long.extend_from_slice(cfg.lt.bytes());
+        let lines = split_lines(&input, cfg.lt.byte());
+        let k = rng.range(0, lines.len());
+        let at: usize = lines[..k].iter().map(|l| l.len()).sum();
+        input.splice(at..at, long);
+    }
     let m = gen_lit_matcher(rng, &cfg, needle);
     Case { cfg, m, input, script: None }.line()
 }
